@@ -64,3 +64,5 @@ func rowsFromAny(v any) [][]string {
 	}
 	return out
 }
+
+func sortInts(s []int) { sort.Ints(s) }
